@@ -22,6 +22,11 @@ package main
 // scale of its format) and only values that the value codec reproduces exactly (value-level
 // deviations are the business of C04/C05, not of the package codecs), so that a correct
 // writer/reader pair reproduces exactly the fields.
+// Exception: BLOB (data type 0x24) columns — the known finding `blob-not-functional` (format accounting,
+// data reader dropping the last chunk, data writer panicking above 1024 bytes; unrepaired, the wire layout
+// cannot be established offline). The generators emit BLOB formats and BLOB data (incl. values above 1024
+// bytes) although nothing round-trips there; ffIsBlobCase recognises every `pkg` line that involves a BLOB
+// column so that the checks can file these failures under that one finding.
 // SpecEnc / SpecDec are written from the TDS 5.0 token layouts (ffShape: the format shape of
 // every data type of the specification); they share no code with /repo. The value bytes inside
 // a ROW / PARAMS come from the reference value encoder of c05.go (refEncode).
@@ -32,6 +37,7 @@ import (
 	"reflect"
 	"strconv"
 	"strings"
+	"time"
 	"unsafe"
 
 	"github.com/SAP/go-dblib/asetypes"
@@ -741,13 +747,12 @@ func ffSpecDecFmt(row, wide bool, bs []byte) ([]ffEntry, bool) {
 //	fixed: the value; Length(1|4) types: Length, value (Length 0 = NULL);
 //	TEXT/IMAGE/UNITEXT/XML: TxtPtrLen(1) TxtPtr TimeStamp(8) DataLen(4) Data
 //
-// BLOB data is not laid out here (see the report: the chunk flag of /repo is not settled by the text).
+// BLOB data: see the 'b' case below (known finding blob-not-functional; not an independent layout).
 // Caveat: other implementations (FreeTDS) send / expect a NULL text value as TxtPtrLen 0 with nothing after
 // it; the layout used here (and by /repo) always has timestamp and length.
 //
-// PARAMS also travels client → server. The registry's SpecDec gets the written bytes only, and a PARAMS
-// package cannot be cut without its format, so there is no SpecDec for params; the independent decoder
-// with the entries as argument is ffSpecDecRowRaw (Lean: Row.decSpec, theorem Row.matches_spec).
+// PARAMS also travels client → server: ffSpecDecRow (registered as SpecDecCtx) is the independent decoder
+// of that leg (Lean: Row.decSpec, theorem Row.matches_spec).
 func ffSpecEncDatum(w *curW, e ffEntry, datum string) bool {
 	p := strings.Split(datum, ";")
 	st, err := strconv.ParseUint(p[0], 10, 8)
@@ -761,8 +766,54 @@ func ffSpecEncDatum(w *curW, e ffEntry, datum string) bool {
 	}
 	sh := ffShape(e.dataType)
 	switch sh {
-	case 0, 'b':
+	case 0:
 		return false
+	case 'b':
+		// BLOB data (known finding blob-not-functional): the wire layout could not be established
+		// offline; laid out the way the WRITER of /repo does it — Serialization(1), [SubClassIdLen(2)
+		// SubClassId] (blob types 1, 2) or [LocatorLen(2) Locator] (6, 7, 8), then chunks of at most 1024
+		// bytes under a 4-byte length whose high bit marks the last chunk. Not an independent layout.
+		if len(p) != 5 {
+			return false
+		}
+		ser, err := strconv.ParseUint(p[1], 10, 8)
+		sub, loc, data := unhx(p[2]), unhx(p[3]), unhx(p[4])
+		if err != nil || sub == nil || loc == nil || data == nil || len(sub) > 65535 || len(loc) > 65535 {
+			return false
+		}
+		switch ser {
+		case 4:
+			w.u(1, 1)
+		case 5:
+			w.u(1, 2)
+		default:
+			w.u(1, 0)
+		}
+		switch e.blobType {
+		case 1, 2:
+			w.u(2, uint64(len(sub)))
+			w.b = append(w.b, sub...)
+		case 6, 7, 8:
+			w.u(2, uint64(len(loc)))
+			w.b = append(w.b, loc...)
+		}
+		for {
+			n := len(data)
+			if n > 1024 {
+				n = 1024
+			}
+			if n == len(data) {
+				w.u(4, uint64(n)|0x80000000)
+			} else {
+				w.u(4, uint64(n))
+			}
+			w.b = append(w.b, data[:n]...)
+			data = data[n:]
+			if len(data) == 0 {
+				break
+			}
+		}
+		return true
 	case 't':
 		if len(p) != 4 {
 			return false
@@ -829,11 +880,94 @@ func ffSpecEncRow(tok byte, f []string) ([]byte, bool) {
 	return w.b, true
 }
 
-// ffSpecDecRow: independent decoder of a PARAMS / ROW body given its format entries (token included
-// in bs): canonical data with the RAW value bytes rendered by the reference decoder is not
-// possible for every type, so the value is rendered as the hex of its bytes: `status;<hex>`.
-// Used by the private self test (fieldsSelfTest) for the client leg of PARAMS: the bytes real
-// WriteTo produced must be cut by the layout into exactly the bytes DataType.Bytes produced.
+// ffRefValueToken: the value a conforming peer means by the raw bytes of a datum of column e, as canonical
+// value token — the reference decoder of c05.go (refDecode), precision and scale of the column for a
+// decimal, NULL for an empty datum of a nullable type. ok=false outside the documented domain.
+func ffRefValueToken(e ffEntry, raw []byte) (string, bool) {
+	t := asetypes.DataType(e.dataType)
+	if len(raw) == 0 {
+		if ffShape(e.dataType) == 'f' {
+			return "", false
+		}
+		switch t {
+		case asetypes.MONEYN, asetypes.DECN, asetypes.NUMN:
+			return "decnull", true
+		}
+		return "null", true
+	}
+	v, tick, ok := refDecode(t, raw)
+	if !ok {
+		return "", false
+	}
+	if tick != 0 {
+		base, isTime := v.(time.Time)
+		if !isTime {
+			return "", false
+		}
+		v = base.Add(time.Duration(valTickNs(refTickOfBytes(t, raw))))
+	}
+	if d, isDec := v.(*asetypes.Decimal); isDec && (t == asetypes.DECN || t == asetypes.NUMN) {
+		d.Precision, d.Scale = int(e.precision), int(e.scale)
+	}
+	return ffValShow(v), true
+}
+
+// ffSpecDecRow (SpecDecCtx of params): independent decoder of a PARAMS / ROW package given the bytes of
+// the preceding format package: the format is read with the layout decoder ffSpecDecFmt, the data are
+// cut by ffSpecDecRowRaw, the values come from the reference value decoder.
+func ffSpecDecRow(kind string, bs, ctx []byte) (string, bool) {
+	if len(ctx) < 1 || len(bs) < 1 {
+		return "", false
+	}
+	var row, wide bool
+	switch ctx[0] {
+	case byte(tds.TDS_PARAMFMT):
+	case byte(tds.TDS_PARAMFMT2):
+		wide = true
+	case byte(tds.TDS_ROWFMT):
+		row = true
+	case byte(tds.TDS_ROWFMT2):
+		row, wide = true, true
+	default:
+		return "", false
+	}
+	if want := byte(tds.TDS_PARAMS); row {
+		if bs[0] != byte(tds.TDS_ROW) {
+			return "", false
+		}
+	} else if bs[0] != want {
+		return "", false
+	}
+	es, ok := ffSpecDecFmt(row, wide, ctx)
+	if !ok {
+		return "", false
+	}
+	raws, ok := ffSpecDecRowRaw(es, bs)
+	if !ok {
+		return "", false
+	}
+	data := make([]string, len(es))
+	for i, e := range es {
+		if ffFamily(e.dataType) != 'v' {
+			data[i] = raws[i]
+			continue
+		}
+		p := strings.Split(raws[i], ";")
+		tok, ok := ffRefValueToken(e, unhx(p[1]))
+		if !ok {
+			return "", false
+		}
+		data[i] = p[0] + ";" + tok
+	}
+	d := "."
+	if len(data) > 0 {
+		d = strings.Join(data, ",")
+	}
+	return fmt.Sprintf("%s %s %s %s", kind, ffFmtKindName(row, wide), ffShowEntries(es), d), true
+}
+
+// ffSpecDecRowRaw cuts a PARAMS / ROW package (token included in bs) into its data given the format
+// entries: `status;<hex of the value bytes>` resp. `status;txtptr;timestamp;data`.
 func ffSpecDecRowRaw(es []ffEntry, bs []byte) ([]string, bool) {
 	if len(bs) < 1 {
 		return nil, false
@@ -870,9 +1004,9 @@ func ffSpecDecRowRaw(es []ffEntry, bs []byte) ([]string, bool) {
 
 // ffCtxBytes: bytes of the format package (token included) that the real reader decodes into
 // exactly these entries. The TDS layout is tried first; where the reader of /repo deviates from
-// the layout (narrow ROWFMT: 4-byte length; BLOB: a length byte in front of the blob type, counted
-// as -1) the bytes are laid out the way the reader reads them, so that ROW / PARAMS can be
-// exercised after such a format at all.
+// the layout (BLOB: a length byte in front of the blob type, counted as -1 — known finding
+// blob-not-functional) the bytes are laid out the way the reader reads them, so that ROW / PARAMS
+// can be exercised after such a format at all.
 func ffCtxBytes(kind string, es []ffEntry) []byte {
 	row, wide, ok := ffFmtKind(kind)
 	if !ok {
@@ -901,9 +1035,6 @@ func ffAsReadFmt(row, wide bool, es []ffEntry) []byte {
 	sw, lw := 1, 2
 	if wide {
 		sw, lw = 4, 4
-	}
-	if row {
-		lw = 4 // RowFmtPackage.ReadFrom reads Uint32 for both tokens
 	}
 	counted := 2
 	s8 := func(s string) {
@@ -964,6 +1095,126 @@ func ffAsReadFmt(row, wide bool, es []ffEntry) []byte {
 
 // the ROWFMT2 an ORDERBY is decoded after: no columns
 var ffEmptyRowFmt2 = []byte{byte(tds.TDS_ROWFMT2), 2, 0, 0, 0, 0, 0}
+
+// ---------------------------------------------------------------- known finding blob-not-functional
+
+// ffBlobInFmtBytes walks the bytes of a format package (token tok, body after the token: complete,
+// truncated or mutated) the way its reader does and reports whether it reaches a column description
+// whose data type byte is BLOB (0x24). Bytes before that point are read identically with or without
+// BLOB support; from that point on the reader of /repo and the TDS layout differ.
+func ffBlobInFmtBytes(tok byte, body []byte) bool {
+	var row, wide bool
+	switch tok {
+	case byte(tds.TDS_PARAMFMT):
+	case byte(tds.TDS_PARAMFMT2):
+		wide = true
+	case byte(tds.TDS_ROWFMT):
+		row = true
+	case byte(tds.TDS_ROWFMT2):
+		row, wide = true, true
+	default:
+		return false
+	}
+	sw, lw := 1, 2
+	if wide {
+		sw, lw = 4, 4
+	}
+	r := &curR{b: body}
+	r.u(lw)
+	n := r.u(2)
+	for i := uint64(0); i < n && !r.bad && len(r.b) > 0; i++ {
+		if row && wide {
+			for k := 0; k < 4; k++ {
+				r.s(r.u(1))
+			}
+		}
+		r.s(r.u(1))
+		r.u(sw)
+		r.u(4)
+		if r.bad || len(r.b) == 0 {
+			return false
+		}
+		t := byte(r.u(1))
+		sh := ffShape(t)
+		switch sh {
+		case 'b':
+			return true
+		case 0:
+			return false
+		}
+		if lwid := ffLenWidth(sh); lwid > 0 {
+			r.u(lwid)
+		}
+		switch sh {
+		case 'p':
+			r.u(2)
+		case 's':
+			r.u(1)
+		case 't':
+			r.s(r.u(2))
+		}
+		r.s(r.u(1))
+	}
+	return false
+}
+
+func ffBlobInEntries(s string) bool {
+	es, ok := ffParseEntries(s)
+	if !ok {
+		return false
+	}
+	for _, e := range es {
+		if e.dataType == byte(asetypes.BLOB) {
+			return true
+		}
+	}
+	return false
+}
+
+// ffIsBlobCase: does a `pkg …` line involve a BLOB column / format? True for
+//
+//	pkg enc|rt|spec|specdec <format kind> <entries>            with a BLOB entry,
+//	pkg enc|rt|spec|specdec params|row <fmtkind> <entries> …    with a BLOB entry,
+//	pkg dec <format token> <ctx> <bytes>     whose bytes reach a BLOB column description (also when they are
+//	                                         a prefix or a mutation of an encoding: ffBlobInFmtBytes),
+//	pkg dec <PARAMS|ROW|ORDERBY token> <ctx> <bytes>   whose ctx is a format package reaching a BLOB column.
+//
+// These are the cases of the known finding blob-not-functional.
+func ffIsBlobCase(line string) bool {
+	f := strings.Fields(line)
+	if len(f) < 4 || f[0] != "pkg" {
+		return false
+	}
+	switch f[1] {
+	case "enc", "rt", "spec", "specdec":
+		switch f[2] {
+		case "paramfmt", "paramfmt2", "rowfmt", "rowfmt2":
+			return ffBlobInEntries(f[3])
+		case "params", "row":
+			return len(f) >= 5 && ffBlobInEntries(f[4])
+		}
+	case "dec":
+		if len(f) != 5 {
+			return false
+		}
+		tb := unhx(f[2])
+		if len(tb) != 1 {
+			return false
+		}
+		switch tb[0] {
+		case byte(tds.TDS_PARAMFMT), byte(tds.TDS_PARAMFMT2), byte(tds.TDS_ROWFMT), byte(tds.TDS_ROWFMT2):
+			bs := unhx(f[4])
+			return bs != nil && ffBlobInFmtBytes(tb[0], bs)
+		case byte(tds.TDS_PARAMS), byte(tds.TDS_ROW), byte(tds.TDS_ORDERBY), byte(tds.TDS_ORDERBY2):
+			if f[3] == "-" {
+				return false
+			}
+			ctx := unhx(f[3])
+			return len(ctx) > 0 && ffBlobInFmtBytes(ctx[0], ctx[1:])
+		}
+	}
+	return false
+}
 
 // ---------------------------------------------------------------- generators
 
@@ -1418,7 +1669,15 @@ func ffRowFields(kind, fmtKind string, cols []ffCol, needEnc bool) string {
 	}
 	if needEnc {
 		p, ok := ffBuildRow(kind, f)
-		if !ok || !strings.HasPrefix(encodePkg(p), "ok ") {
+		if !ok {
+			return ""
+		}
+		e := encodePkg(p)
+		if !strings.HasPrefix(e, "ok ") {
+			return ""
+		}
+		// … and that the reference value decoder maps back (client leg, SpecDecCtx)
+		if sd, ok := ffSpecDecRow(kind, unhx(e[3:]), ctx); !ok || sd != shown {
 			return ""
 		}
 	}
@@ -1437,6 +1696,29 @@ func genFieldsRow(kind string) func(string, *rand.Rand, func(string)) {
 				emit(f)
 			}
 		}
+		blob := func(fk string, bt uint8, n int) {
+			e := ffPlain(byte(asetypes.BLOB), "b")
+			e.blobType = bt
+			sub, loc := "-", "-"
+			ser := map[uint8]int{1: 0, 3: 1, 4: 2, 5: 3, 6: 0}[bt]
+			switch bt {
+			case 1:
+				e.classID = "cls"
+				sub = hx([]byte("sub"))
+			case 6:
+				loc = hx([]byte("locator"))
+			}
+			emit(fmt.Sprintf("%s %s 0;%d;%s;%s;%s", fk, e.String(), ser, sub, loc, hx(rndBytes(rng, n))))
+		}
+		// BLOB columns — known finding blob-not-functional: the format accounting, the reader dropping the
+		// last chunk and the writer's slice panic above 1024 bytes. Not filtered through the real reader
+		// (nothing is a fixpoint there); the format reaches the reader laid out the way it reads it
+		// (CtxFor; a PARAMFMT with a BLOB column cannot be read at all). A few first (the quick tiers of
+		// C07 / C10 take the first cases of a kind), the rest below.
+		blob(kinds[0], 4, 5)
+		blob(kinds[0], 1, 0)
+		blob(kinds[0], 4, 1025)
+		blob(kinds[1], 6, 5)
 		for _, fk := range kinds {
 			out(fk, nil) // no columns
 			// every type × every boundary length × {zeros, ones, random} × with/without column status
@@ -1466,6 +1748,16 @@ func genFieldsRow(kind string) func(string, *rand.Rand, func(string)) {
 				cols = append(cols, ffRandCol(rng, byte(asetypes.INTN), []int{0, 1, 2, 4, 8}[i%5], 2, i%2 == 0))
 			}
 			out(fk, cols)
+		}
+		for _, fk := range kinds {
+			for _, bt := range []uint8{4, 1, 6, 3, 5} {
+				for _, n := range []int{0, 5, 1024, 1025, 2048} {
+					blob(fk, bt, n)
+				}
+			}
+			e := ffPlain(byte(asetypes.BLOB), "b")
+			e.status = 8
+			emit(fmt.Sprintf("%s %s,%s 1;2;-;-;%s,0;i32:7", fk, e.String(), ffPlain(byte(asetypes.INT4), "i").String(), hx(rndBytes(rng, 3))))
 		}
 		vt := ffValueTypes()
 		for i := 0; i < ffN(tier, 300, 5000); i++ {
@@ -1595,6 +1887,7 @@ func init() {
 		}
 		if kind == "params" {
 			c.Build = func(f []string) (tds.Package, bool) { return ffBuildRow(kind, f) }
+			c.SpecDecCtx = func(bs, ctx []byte) (string, bool) { return ffSpecDecRow(kind, bs, ctx) }
 		}
 		registerCodec(c)
 	}
